@@ -533,6 +533,134 @@ def gen_boundary(rng, tier):
     return {"header": header(d), "ops": ops}
 
 
+def gen_expiry(rng, tier):
+    """C04, time-based windows that ROLL OVER their records between calls: recording a call first prunes the records older than
+    sliding_window_duration, so the rates of what is left can reach (or fall below) a threshold because of what aged out, not
+    because of the outcome being recorded. Bursts of calls (all successes / all failures / slow / mixed) separated by gaps that are
+    fractions of the window, so that the bursts leave the window one by one while later ones stay; the ages at the recordings are
+    aimed at wdur-1 / wdur / wdur+1. Half of the cases are planned: an older burst of one kind and a younger burst of the other in
+    amounts that keep the rate under the threshold while both are in the window, then a call (success, failure, fast, slow) when
+    only the older burst has expired - the threshold is reached by expiry on a SUCCESS, reached only thanks to the new failure,
+    missed because failures aged out, or the window falls under minimum_number_of_calls. The rest are random rolling histories."""
+    W = rng.choice([20, 50, 100, 100, 400, 1000])
+    by_slow = rng.random() < 0.3
+    th = rng.choice(["1/4", "1/2", "1/2", "3/4", "3/10", "3/5", "5/8", "1/10", "2/3", "1/3", "1/1"])
+    other = rng.choice(["1/1", "1/1", "3/4", "1/2"])
+    d = {"size": rng.choice([1, 3, 10, 100]), "wait": rng.choice([10, 50, 100, 2 * W]), "permitted": rng.choice([1, 1, 2, 3]),
+         "wtype": "time", "wdur": W}
+    S = rng.choice([2, 5, 10])
+    if by_slow:
+        d["fr"], d["slow"], d["sr"] = other, S, th
+    else:
+        d["fr"] = th
+        if rng.random() < 0.35:
+            d["slow"], d["sr"] = S, other
+    d["min"] = rng.choice([1, 2, 2, 3, 3, 4, 5])
+    d["cls"] = rng.choice([0, 0, 0, 1, 2])
+    if rng.random() < 0.3:
+        d["listen"] = rng.choice([0, 0, 2])
+    num, den = frac(th, "1/2")
+    ops = []
+    c = [0]
+    now = [0]
+
+    def adv(x):
+        if x > 0:
+            ops.append("adv %d" % x)
+            now[0] += x
+
+    def call(marked, probe=True):
+        """marked = the kind of call the watched rate counts (a failure / a slow call)"""
+        c[0] += 1
+        tag = " tag=%d" % (2 * rng.randint(0, 4)) if d["cls"] == 2 else ""
+        if marked and by_slow:
+            lat = rng.choice([S, S, S + 1])
+            o = "ok" if rng.random() < 0.8 or other != "1/1" else "err1"
+            ops.extend(["arrive %d inner=%d:%s%s" % (c[0], lat, o, tag), "poll %d" % c[0]])
+            adv(lat)
+            ops.append("poll %d" % c[0])
+        elif marked:
+            ops.extend(["arrive %d inner=%d:err1%s" % (c[0], 0, tag), "poll %d" % c[0]])
+        elif "slow" in d and rng.random() < 0.2:
+            ops.extend(["arrive %d inner=%d:ok%s" % (c[0], S - 1, tag), "poll %d" % c[0]])
+            adv(S - 1)
+            ops.append("poll %d" % c[0])
+        else:
+            ops.extend(["arrive %d inner=0:ok%s" % (c[0], tag), "poll %d" % c[0]])
+        if probe:
+            ops.append("probe views")
+
+    if rng.random() < 0.6:
+        # planned: `a` older calls of one kind at t0, `b` younger calls of the other kind g1 later, the deciding call g2 after
+        # those: the older burst has expired iff g1 + g2 > W, the younger one is still there iff g2 <= W
+        plan = rng.choice(["success", "success", "success", "failure", "averts", "averts", "below-min", "free"])
+        if num >= den and plan in ("success", "below-min"):
+            plan = "failure"      # a rate of 1 cannot be reached on a call that does not count
+        kind = "marked" if plan in ("failure", "averts") else "ok" if plan != "free" else rng.choice(["ok", "marked"])
+        old_marked = plan == "averts" or (plan == "free" and rng.random() < 0.4)
+        if plan == "averts":
+            # a counted calls, then b others; closed while a/(a+b) < th; the deciding counted call trips with the old ones
+            # ((a+1)/(a+b+1) >= th for the largest such a) and does not without them (1/(b+1) < th)
+            b = den // max(1, num) + rng.choice([0, 0, 1])
+            a = max(1, (num * b - 1) // max(1, den - num)) if num < den else rng.randint(1, 3)
+        elif plan == "free":
+            a, b = rng.randint(1, 5), rng.randint(1, 4)
+        else:
+            # a others, then b counted calls; closed while b/(a+b) < th  <=>  a > b*(den-num)/num; after the expiry of the others
+            # the deciding call sees b/(b+1) (a success: needs b >= num/(den-num)) or (b+1)/(b+1) (a counted call)
+            b = max(1, -(-num // max(1, den - num))) + rng.choice([0, 0, 0, 1]) if kind == "ok" else rng.randint(1, 3)
+            a = (b + (kind == "marked")) * (den - num) // max(1, num) + 1 + rng.choice([0, 0, 0, 1, 2])
+        d["min"] = b + 2 if plan == "below-min" else rng.choice([1, 2, b, b + 1, b + 1, b + 1, max(1, b - 1)] + ([a + b, b + 2] if plan == "free" else []))
+        for _ in range(rng.randint(0, 2)):
+            # something older still that is gone in any case
+            call(d["min"] > 1 and rng.random() < 0.3, probe=False)
+            adv(W + rng.choice([1, 2, W]))
+        spread = rng.random() < 0.3
+        for i in range(a):
+            call(old_marked, probe=(i == a - 1))
+            if spread and i < a - 1:
+                adv(rng.choice([1, 1, 2]))
+        t_old = now[0]
+        adv(rng.choice([1, W // 4, W // 2, W // 2, W - W // 3, W - 1, W]))
+        for i in range(b):
+            call(not old_marked, probe=(i == b - 1))
+            if spread and rng.random() < 0.5:
+                adv(1)
+        # the deciding call is RECORDED at t_old + W + delta: delta <= 0 - nothing has expired yet; 1 - the older burst just has
+        delta = rng.choice([1, 1, 1, 1, 1, 2, 0, -1, W // 3])
+        lat = S if (kind == "marked" and by_slow) else 0
+        adv(max(0, t_old + W + delta - now[0] - lat))
+        call(kind == "marked")
+        for _ in range(rng.randint(1, 3)):
+            if rng.random() < 0.4:
+                adv(rng.choice([1, W // 4, W // 2, W, W + 1]))
+            call(rng.random() < 0.4)
+    else:
+        pm = 0.5
+        for _ in range(rng.randint(4, 14)):
+            r = rng.random()
+            pm = 0.0 if r < 0.35 else 1.0 if r < 0.65 else 0.5 if r < 0.9 else pm
+            for _ in range(rng.randint(1, 4)):
+                call(rng.random() < pm)
+                if rng.random() < 0.15:
+                    adv(rng.choice([1, 2, W // 10]))
+            r = rng.random()
+            if r < 0.85:
+                adv(rng.choice([W // 4, W // 3, W // 2, W // 2, W // 2 + 1, W - W // 3, W - 1, W, W + 1, 1]))
+            elif r < 0.90:
+                ops.append("manual " + rng.choice(["reset", "force_closed", "force_open"]))
+            else:
+                adv(_w(d))
+    if rng.random() < 0.7:
+        adv(_w(d) + rng.choice([0, 0, -1, 1]))
+        call(False)
+    check_f64(d, c[0] + 1)
+    case = {"header": header(d), "ops": ops}
+    if rng.random() < 0.12 and not by_slow and "slow" not in d:
+        case = scale_us(rng, case)
+    return case
+
+
 def gen_seq(rng, tier):
     """C04: sequential histories — every call completes before the next operation"""
     d = gen_cfg(rng, "seq")
@@ -1011,7 +1139,10 @@ def gen_c04(rng, tier):
         return finalize(rng, gen_preset(rng, tier), gen_other=_other_seq)
     if r < 0.47:
         return finalize(rng, early_overrides(rng, gen_health(rng, tier, sequential=True)), gen_other=_other_seq)
-    if r < 0.55:
+    if r < 0.59:
+        # "… the failure rate or the enabled slow-call rate over the sliding window reaches its threshold": by expiry
+        return finalize(rng, early_overrides(rng, gen_expiry(rng, tier)), gen_other=_other_seq)
+    if r < 0.67:
         # "half-open to closed after permitted successes and back to open on any failure" with the trial calls in flight
         # together and more callers arriving meanwhile: whether the inner service is invoked is part of the observable state
         case = gen_episodes(rng, tier) if rng.random() < 0.4 else gen_conc(rng, tier, halfopen_bias=True)
@@ -1489,9 +1620,11 @@ class Spec:
 
     def record(self, t, fail, dur):
         slow = self.slow is not None and dur >= self.slow
+        before = None
         if self.count:
             self.window = (self.window + [(t, fail, slow)])[-max(self.size, 1):]
         else:
+            before = self.window + [(t, fail, slow)]
             self.window = [r for r in self.window if t - r[0] <= self.wdur] + [(t, fail, slow)]
         if self.state == "halfopen":
             if fail:
@@ -1505,12 +1638,32 @@ class Spec:
         if not self.count:
             self.window = win
         n = len(win)
+        # coverage (time-based windows): what the expiry of old records did to this evaluation. `would` = the verdict had
+        # nothing expired; `evaluable` = the minimum was in the window already before this call was recorded
+        would = evaluable = False
+        if before is not None and len(before) > n:
+            n0 = len(before)
+            would = n0 >= self.min and (sum(1 for r in before if r[1]) * self.fr[1] >= self.fr[0] * n0 or
+                                        (self.slow is not None and sum(1 for r in before if r[2]) * self.sr[1] >= self.sr[0] * n0))
+            evaluable = n0 - 1 >= self.min
+            self.notes.append("expiry-partial" if n > 1 else "expiry-total")
+            if n < self.min and would:
+                self.notes.append("expiry-drops-below-minimum")
         if n < self.min or (self.count and n < self.size) or n == 0:
             return
         f = sum(1 for r in win if r[1])
         s = sum(1 for r in win if r[2])
         byf = f * self.fr[1] >= self.fr[0] * n
         bys = self.slow is not None and s * self.sr[1] >= self.sr[0] * n
+        if before is not None and len(before) > n:
+            if (byf or bys) and not would:
+                # the threshold is reached by expiry, not by the outcome being recorded: the rate that trips is one this
+                # call does not add to (a success for the failure rate, a fast call for the slow-call rate)
+                quiet = (byf and not fail) or (bys and not slow and not byf)
+                self.notes.append("expiry-trips-on-%s%s" % (
+                    ("success" if byf else "fast-call") if quiet else ("failure" if byf else "slow-call"), "-evaluable-before" if evaluable and quiet else ""))
+            elif would and not (byf or bys):
+                self.notes.append("expiry-averts-trip")
         if byf or bys:
             eqf = byf and f * self.fr[1] == self.fr[0] * n
             eqs = bys and s * self.sr[1] == self.sr[0] * n
@@ -1874,6 +2027,9 @@ ALL_TR = ["tr-closed-open", "tr-open-halfopen", "tr-halfopen-closed", "tr-halfop
           "admit-during-pending-fallback", "record-during-pending-fallback", "probe-during-pending-fallback", "manual-during-pending-fallback"]
 
 TR_BOUNDARY = ["trip-rate-equals-threshold", "closed-one-below-threshold"]
+# time-based windows: old records expire between two recordings (Spec.record)
+TR_EXPIRY = ["expiry-partial", "expiry-total", "expiry-trips-on-success-evaluable-before", "expiry-trips-on-fast-call-evaluable-before",
+             "expiry-trips-on-failure", "expiry-trips-on-slow-call", "expiry-averts-trip", "expiry-drops-below-minimum"]
 TR_BUILD = ["preset-standard", "preset-fast_fail", "preset-tolerant", "preset-fn", "preset-builder", "via-layer", "via-for_request", "via-layer_fn",
             "chain", "chain-cls-before-size", "chain-cls-after-size", "chain-clsr-before-size", "chain-clsr-after-size", "chain-default-minimum",
             "chain-overridden-setter", "services-several", "handle-reused", "health-trigger_unhealthy", "health-trigger_healthy", "health-task-scheduled",
@@ -1932,12 +2088,15 @@ SPECS = {
                            "yield (open_window, open_interval, open_shields_every_prefix, observed_open_has_its_event, log_only_grows); one poll may go open -> half-open -> "
                            "open and does start an inner call, between two transition events (no_inner_call_while_no_transition); calls admitted earlier complete while open "
                            "(running_completes_while_open); a listener reading state_sync() in its callback reads the state being left (listener_sees_state_before_transition)."),
-    "C04": dict(COMMON, module="TR.Props.C04", gen=gen_c04, all_transitions=ALL_TR + TR_BOUNDARY + TR_BUILD,
+    "C04": dict(COMMON, module="TR.Props.C04", gen=gen_c04, all_transitions=ALL_TR + TR_BOUNDARY + TR_EXPIRY + TR_BUILD,
                 monitors=[("c04-documented-machine", per_service(mon_c04)), ("c04-halfopen-trials", per_service(mon_c09))],
                 rule="sequential histories (length 10..300) over success/failure/slow success/slow failure/wait/force_open/force_closed/reset with "
                      "probe views after every step; both window types; thresholds incl. 0 and 1; min calls below/equal/above the window; three classifiers; "
                      "25%: exact-boundary configurations (thresholds with 2-3 decimals, windows up to 100, count- and time-based, failure and slow-call rate) whose "
                      "window ends exactly at / one below / one above the threshold, directly or by sliding; half of them float-sensitive boundaries (gen.circuit.boundaries); "
+                     "12%: time-based windows that roll over their records between calls (gen_expiry): bursts of successes / failures / slow calls separated by "
+                     "fractions of the window duration, ages aimed at wdur-1 / wdur / wdur+1; planned histories in which the threshold is reached by expiry on a success / "
+                     "a fast call, only thanks to the new failure, missed because failures aged out, or the window falls under the minimum; "
                      "40%: the configuration written as the builder chain itself (any order of setters, failure_classifier / classify_response before or after "
                      "sliding_window_size, overridden setters, defaults left unset); 8%: the presets standard / fast_fail / tolerant, circuit_breaker_builder() and the bare "
                      "builder, as they are or customised, driven to their documented threshold / wait / permitted calls; 9%: health signals (trigger_unhealthy / "
@@ -1954,7 +2113,9 @@ SPECS = {
                            "the sequential driver computes (seq_embeds) whose abstraction is the documented machine on the same history (refines_run); metrics(): count-based = "
                            "counts over the documented window, time-based = the documented window plus expired records not pruned yet, exact right after a recording "
                            "(metrics_match_window, metrics_time_window, metrics_exact_after_record); inside an on_state_transition callback the lock-free view still shows the "
-                           "state being left (listener_view_lags); the recorded duration holds for failures too (recorded_duration)."),
+                           "state being left (listener_view_lags); the recorded duration holds for failures too (recorded_duration); time-based expiry: the next recording, "
+                           "whatever its outcome, opens the breaker exactly when the PRUNED window plus that outcome meets the condition (expiry_decides_next_recording), so a "
+                           "success trips on a rate raised by expiry alone (success_trips_on_expired_window)."),
     "C09": dict(COMMON, module="TR.Props.C09", gen=gen_c09, all_transitions=ALL_TR + TR_TEARDOWN + TR_EPISODES + TR_BUILD + TR_READY,
                 monitors=[("c09-halfopen-trials", per_service(mon_c09)), ("c09-excess-answered-at-once", per_service(mon_at_once))],
                 rule="breaker driven to half-open, then many callers arriving together with slow trial calls, mixed outcomes, drops and panics of "
